@@ -21,16 +21,19 @@ func init() {
 		"container/heap trusted; frozen guarded-by table", "DESIGN.md §3 R-LOCKS, R-CMP; §4 C34",
 		func(c *Ctx) {
 			c.load("lib/transaction")
-			c.doc("R-LOCKS", "table: PriorityQueue{pq,txs,currOrder} guarded by embedded sync.Mutex; Pool{transactions} cross-reference only")
+			c.doc("R-LOCKS", "table: PriorityQueue{pq,txs,currOrder} guarded by embedded sync.Mutex; Pool{transactions} guarded by Pool.mu (armed since the repair of D36)")
 			c.ruleLocks(lockSpec{dir: "lib/transaction", typ: "PriorityQueue", guarded: []string{"pq", "txs", "currOrder"}, rule: "R-LOCKS", l5: true,
 				l4Exempt: map[string]string{"(*PriorityQueue).PopWithTimer": "polling wrapper: each Pop is its own linearizable operation by design",
 					"(*PriorityQueue).PopWithTimer$1": "polling goroutine: each Pop is its own linearizable operation by design"}})
 			c.min("R-LOCKS/L1", 5)
 			c.min("R-LOCKS/L2", 6)
 			c.min("R-LOCKS/L4", 6)
-			c.ruleLocks(lockSpec{dir: "lib/transaction", typ: "Pool", guarded: []string{"transactions"}, rule: "R-LOCKS-POOL",
-				xrefOnly: map[string]bool{"L1": true, "L2": true, "L3": true, "L4": true}})
+			c.ruleLocks(lockSpec{dir: "lib/transaction", typ: "Pool", guarded: []string{"transactions"}, rule: "R-LOCKS-POOL", noL4: true})
+			c.min("R-LOCKS-POOL/L1", 6)
+			c.min("R-LOCKS-POOL/L2", 2)
 			c.ruleQueue()
+			c.ruleHeapIndex("lib/transaction")
+			c.min("R-HEAPINDEX", 4)
 			c.min("R-FIFO", 3)
 			c.min("R-DUP", 4)
 			less := c.fn("lib/transaction", "priorityQueue.Less")
